@@ -853,15 +853,21 @@ impl FrontendInternal {
         }
         self.check_state()?;
 
-        let mut buf: Vec<u8> = vec![0; hdr.get_size() as usize - mem::size_of::<T>()];
-        let (reply, body, bytes, files) = self.main_sock.recv_payload_into_buf::<T>(&mut buf)?;
-        if !reply.is_reply_for(hdr)
-            || reply.get_size() as usize != mem::size_of::<T>() + bytes
-            || files.is_some()
-            || !body.is_valid()
-            || bytes != buf.len()
-        {
+        // Receive the header and the fixed-size body first: the length of the payload that
+        // follows is the one declared by the reply's own header, which may legitimately be
+        // shorter than what was requested (e.g. a failure reply carries no payload at all).
+        let (reply, body, files) = self.main_sock.recv_body::<T>()?;
+        if !reply.is_reply_for(hdr) || files.is_some() || !body.is_valid() {
             return Err(VhostUserError::InvalidMessage);
+        }
+        let max_payload = hdr.get_size() as usize - mem::size_of::<T>();
+        let payload_size = match (reply.get_size() as usize).checked_sub(mem::size_of::<T>()) {
+            Some(len) if len <= max_payload => len,
+            _ => return Err(VhostUserError::InvalidMessage),
+        };
+        let buf = self.main_sock.recv_payload(payload_size)?;
+        if buf.len() != payload_size {
+            return Err(VhostUserError::PartialMessage);
         }
 
         Ok((body, buf, files))
